@@ -311,6 +311,10 @@ def main(argv):
                 plugin.replay(ctx, ctx.replay)
             else:
                 plugin.run(ctx)
+            if getattr(ctx, 'xpairs', None):
+                # answers of the extracted binary re-computed by the kernel's evaluator on the Coq definitions
+                from lib import coqeval
+                coqeval.crosscheck(ctx, ctx.xpairs)
         except Exception:
             ctx.prove_log += '\nCORR stage crashed:\n' + traceback.format_exc()
             ctx.mismatch('harness-crash', traceback.format_exc()[-1500:], None, 'harness')
